@@ -211,3 +211,101 @@ impl FrameInfo {
             .count()
     }
 }
+
+/// Offsets (relative to the start of the frame) of the notable fields inside a compressed block, found by parsing
+/// the literals section header and the sequences section header per RFC 8878.
+#[derive(Clone, Debug, Default)]
+pub struct BlockFields {
+    pub literals_header_at: usize,
+    pub literals_type: u8,
+    /// start of the literals payload (Huffman tree description or raw bytes)
+    pub literals_payload_at: usize,
+    pub seq_count_at: usize,
+    pub nb_seq: usize,
+    /// position of the symbol compression modes byte (None when there are no sequences)
+    pub modes_at: Option<usize>,
+    pub block_end: usize,
+}
+
+pub fn block_fields(f: &[u8], b: &BlockInfo) -> Option<BlockFields> {
+    if b.kind != BlockKind::Compressed {
+        return None;
+    }
+    let start = b.at + 3;
+    let end = start + b.body_len;
+    let body = f.get(start..end)?;
+    if body.is_empty() {
+        return None;
+    }
+    let b0 = body[0];
+    let ty = b0 & 3;
+    let sf = (b0 >> 2) & 3;
+    let (hlen, stored): (usize, usize) = if ty < 2 {
+        let (hlen, regen) = match sf {
+            0 | 2 => (1usize, (b0 >> 3) as usize),
+            1 => (2, ((b0 as usize) >> 4) | ((*body.get(1)? as usize) << 4)),
+            _ => (3, ((b0 as usize) >> 4) | ((*body.get(1)? as usize) << 4) | ((*body.get(2)? as usize) << 12)),
+        };
+        (hlen, if ty == 0 { regen } else { 1 })
+    } else {
+        match sf {
+            0 | 1 => {
+                let v = (b0 as usize) | ((*body.get(1)? as usize) << 8) | ((*body.get(2)? as usize) << 16);
+                (3, (v >> 14) & 0x3FF)
+            }
+            2 => {
+                let v = (b0 as usize) | ((*body.get(1)? as usize) << 8) | ((*body.get(2)? as usize) << 16) | ((*body.get(3)? as usize) << 24);
+                (4, (v >> 18) & 0x3FFF)
+            }
+            _ => {
+                let v = (b0 as u64) | ((*body.get(1)? as u64) << 8) | ((*body.get(2)? as u64) << 16) | ((*body.get(3)? as u64) << 24) | ((*body.get(4)? as u64) << 32);
+                (5, ((v >> 22) & 0x3FFFF) as usize)
+            }
+        }
+    };
+    let seq_at = hlen + stored;
+    let s0 = *body.get(seq_at)? as usize;
+    let (nb_seq, sc_len) = if s0 == 0 {
+        (0, 1)
+    } else if s0 < 128 {
+        (s0, 1)
+    } else if s0 < 255 {
+        (((s0 - 128) << 8) + *body.get(seq_at + 1)? as usize, 2)
+    } else {
+        (*body.get(seq_at + 1)? as usize + ((*body.get(seq_at + 2)? as usize) << 8) + 0x7F00, 3)
+    };
+    Some(BlockFields {
+        literals_header_at: start,
+        literals_type: ty,
+        literals_payload_at: start + hlen,
+        seq_count_at: start + seq_at,
+        nb_seq,
+        modes_at: if nb_seq > 0 { Some(start + seq_at + sc_len) } else { None },
+        block_end: end,
+    })
+}
+
+impl FrameInfo {
+    /// positions of structural fields for field-aware corruption
+    pub fn hot_positions(&self, f: &[u8]) -> Vec<usize> {
+        let mut v = self.boundaries();
+        for b in &self.blocks {
+            if let Some(bf) = block_fields(f, b) {
+                v.push(bf.literals_header_at);
+                v.push(bf.literals_payload_at);
+                v.push(bf.seq_count_at);
+                if let Some(m) = bf.modes_at {
+                    v.push(m);
+                    v.push(m + 1);
+                    v.push(m + 2);
+                    v.push(m + 3);
+                }
+                v.push(bf.block_end.saturating_sub(1));
+            }
+        }
+        v.sort_unstable();
+        v.dedup();
+        v.retain(|x| *x < f.len());
+        v
+    }
+}
